@@ -100,7 +100,7 @@ Prologues == {"doctype", "html-head", "doctype-comment-fake", "doctype-script-fa
               "doctype-other-meta", "doctype-content-without-equiv", "ws-doctype"}
 BomsH == {"none", "utf-8"}
 LimitRel == {"zero", "default", "just-past"}
-XmlForms == {"version-encoding", "version-encoding-standalone", "spaced"}
+XmlForms == {"version-encoding", "version-encoding-standalone", "spaced", "newline", "tab"}
 XmlLead == {"none", "ws", "bom"}
 
 HtmlDocs(L) == [kind : HtmlKinds, label : L, quote : Quotes, order : Orders, extra : Extras, tcase : Cases,
